@@ -908,6 +908,9 @@ impl<'tcx> Cx<'tcx> {
         f.extend(self.span_json(tcx.def_span(did)));
         let sty = tcx.type_of(did).instantiate_identity().skip_norm_wip();
         f.push(("self_ty", js(&self.ty(sty))));
+        f.push(("self_regions", self.regions_json(sty)));
+        f.push(("self_params", self.ty_params_json(sty)));
+        f.push(("pred_regions", self.pred_regions_json(did)));
         if let ty::Adt(adt, _) = sty.kind() {
             f.push(("self_adt", js(&self.path(adt.did()))));
         }
@@ -918,6 +921,14 @@ impl<'tcx> Cx<'tcx> {
             f.push(("trait_krate", js(tcx.crate_name(tr.def_id.krate).as_str())));
             f.push(("trait_ref", js(&with_no_trimmed_paths!(format!("{:?}", tr)))));
             f.push(("trait_args", self.gargs_json(tr.args)));
+            // regions among the trait's own arguments (Self excluded)
+            let mut trs: Vec<String> = Vec::new();
+            for a in tr.args.iter().skip(1) {
+                if let GenericArgKind::Lifetime(r) = a.kind() {
+                    trs.push(self.region_name(r));
+                }
+            }
+            f.push(("trait_regions", jarr(trs.iter().map(|x| js(x)))));
             let h = tcx.impl_trait_header(did);
             f.push(("negative", jb(matches!(h.polarity, ty::ImplPolarity::Negative))));
             f.push(("unsafe", jb(h.safety.is_unsafe())));
